@@ -6,11 +6,11 @@
    ErrorsOrigin.v (leaf origins), ErrorsE2E.v (end to end, nesting fuel), ErrorsFwd.v (panic
    containment in the graph model), ErrorsFwdStream.v (forwarders on their own), ErrorsGuard.v
    (self-panicking streams behind forwarders and copies, end to end), ErrorsKeep.v (what a stream
-   holds is never swallowed).
+   holds is never swallowed), ErrorsHandlers.v (state pre/post handlers of a node).
    Models: Model/Errors.v (error terms, errors.Is / errors.As, the wrappers of compose/error.go,
    the run loop's error paths over a forest of nested graphs, the public paradigms) and
    Model/ErrorsFwd.v (MergeStreamReaders over forwarded sources) — both evaluated by Corr/C13.v. *)
-From Eino Require Import Base.Util Model.Errors Model.ErrorsFwd Proofs.Errors Proofs.ErrorsRun Proofs.ErrorsFwd Proofs.ErrorsMsg Proofs.ErrorsOrigin Proofs.ErrorsE2E Proofs.ErrorsFwdStream Proofs.ErrorsGuard Proofs.ErrorsKeep.
+From Eino Require Import Base.Util Model.Errors Model.ErrorsFwd Proofs.Errors Proofs.ErrorsRun Proofs.ErrorsFwd Proofs.ErrorsMsg Proofs.ErrorsOrigin Proofs.ErrorsE2E Proofs.ErrorsFwdStream Proofs.ErrorsGuard Proofs.ErrorsKeep Proofs.ErrorsHandlers.
 Open Scope string_scope.
 
 (* ------------------------------------------------------------------ the path *)
@@ -40,15 +40,77 @@ Print Assumptions node_named_in_message.
 
 (* ... and conversely a task that ends with an error is not swallowed: the step fails and that
    error, wrapped under the node's key, is among the legal answers (whatever the other tasks of
-   the step did). *)
+   the step did).  (The tasks of a step start only when no state pre-handler of the step fails,
+   [pre_fails] = []; a failing pre-handler is itself reported under its node's key:
+   [pre_handler_failure_reported] below.) *)
 Theorem node_failure_reported : forall F stream rec all loop br k st rest items n es' e',
   In n st -> exec_node F stream rec items false n = NErr es' -> In e' es' ->
   is_interrupt_task e' = false ->
   any_fuel (map (fun n => (node_key n, exec_node F stream rec items false n)) st) = false ->
+  pre_fails stream items st = [] ->
   exists es, steps F stream rec all loop br (S k) (st :: rest) items false = GFail es /\
              In (wrap_node (node_key n) e') es.
 Proof. exact step_reports_failure. Qed.
 Print Assumptions node_failure_reported.
+
+(* The state handlers of a node are part of the node.  A failing PRE-handler (they run on the run
+   loop's goroutine before any task of the step starts) fails the run with exactly the failing
+   pre-handlers' errors as legal answers, each wrapped under the key of ITS node (repair of
+   F-C13e; the input stream of the step holding nothing that panics on the run loop) ... *)
+Theorem pre_handler_failure_reported : forall F stream rec all loop br k st rest items key f u,
+  In (NLam key f (BPreFail u)) st -> pre_panic stream items = None ->
+  exists es, steps F stream rec all loop br (S k) (st :: rest) items false = GFail es /\
+    In (wrap_node key (Wrapf (pre_error stream items u))) es /\
+    (forall e, In e es -> exists key' f' u', In (NLam key' f' (BPreFail u')) st /\
+                                             e = wrap_node key' (Wrapf (pre_error stream items u'))).
+Proof. exact pre_handler_failure_lemma. Qed.
+Print Assumptions pre_handler_failure_reported.
+
+(* ... the error is the handler's own error under key-free wrappers (recoverable by
+   [orig_recoverable]) and the path read off it is the node's key followed by what the handler's
+   error itself carried ... *)
+Theorem pre_handler_error_shape : forall stream key u,
+  (exists ws, Wrapf (pre_error stream [] u) = apply_ws ws u /\ keys_of ws = []) /\
+  (is_interrupt_error u = false -> np_of (wrap_node key (Wrapf (pre_error stream [] u))) = key :: np_of u).
+Proof. intros. split; [apply pre_error_shape|apply pre_failure_names_node]. Qed.
+
+(* ... and a failing POST-handler (run when the task is collected) makes the task end with the
+   handler's error under key-free wrappers: [node_failure_reported] / [failing_node_reported] then
+   report it under the node's key like a failure of the body. *)
+Theorem post_handler_failure_shape : forall stream f u,
+  exists ws, with_post stream (BPostFail u) (exec_lambda stream [] f (BPostFail u)) = NErr [apply_ws ws u] /\ keys_of ws = [].
+Proof. exact post_failure_shape. Qed.
+
+(* End to end a failing pre-handler is a failing node like any other: [fails_at] has the case
+   ([fa_pre]: the node is reached through quietly passed stages, its pre-handler fails with a
+   non-interrupt error), so [failing_node_reported] gives, for every nesting depth and paradigm, the
+   answer naming exactly the path of the node. *)
+Example pre_handler_e2e_nonvacuous :
+  let top := mkGraph false [[NLam "first" FI BOk]; [NSub "a" 1]] false 0 BrNone in
+  let F := [ top; mkGraph true [[NLam "k" FC (BPreFail (Custom 1 3)); NLam "b" FI (BFail (Leaf 0))]] false 0 BrNone ] in
+  forward F /\ post_ok F /\
+  fails_at F true (S (List.length F)) top ["a"; "k"] (Wrapf (pre_error true [] (Custom 1 3))) /\
+  map (fun a => match a with AErr e => (msg_path e, as_custom 1 e) | _ => ([], None) end) (answers F PCollect false None)
+  = [ (["a"; "k"], Some 3%N) ].
+Proof.
+  cbv zeta. split; [apply forwardb_sound; vm_compute; reflexivity|].
+  split; [apply post_okb_sound; vm_compute; reflexivity|]. split; [|vm_compute; reflexivity].
+  eapply (fa_sub _ _ _ _ [[NLam "first" FI BOk]] [NSub "a" 1%nat] [] "a" 1%nat);
+    [reflexivity| |cbn; lia|reflexivity|left; reflexivity|reflexivity|].
+  { intros st n [<-|[]] [<-|[]]; vm_compute; split; reflexivity. }
+  eapply (fa_pre _ _ _ _ [] _ [] "k" FC (Custom 1 3)); [reflexivity|intros st n []|cbn; lia|left; reflexivity|reflexivity].
+Qed.
+
+(* Before the repair of F-C13e a failing pre-handler came back as a graph-level error: no node
+   named, at any depth only the enclosing sub-graph nodes. *)
+Theorem pre_handler_v4_refuted :
+  np_of (pre_fail_v4 false [] (Custom 1 3)) = [] /\ msg_path (wrap_node "sub" (pre_fail_v4 false [] (Custom 1 3))) = ["sub"] /\
+  let F := [ mkGraph false [[NSub "sub" 1]] false 0 BrNone;
+             mkGraph true [[NLam "a" FI BOk]; [NLam "k" FS (BPreFail (Custom 1 3)); NLam "b" FI (BFail (Leaf 0))]] false 0 BrNone ] in
+  map (fun a => match a with AErr e => (msg_path e, as_custom 1 e) | _ => ([], None) end)
+      (answers F PInvoke false None ++ answers F PStream false None)%list
+  = [ (["sub"; "k"], Some 3%N); (["sub"; "k"], Some 3%N) ].
+Proof. repeat split; vm_compute; reflexivity. Qed.
 
 (* non-vacuity: nesting depth 3, two parallel failures at the innermost level *)
 Definition ex_forest : forest :=
@@ -75,7 +137,7 @@ Proof. vm_compute. reflexivity. Qed.
    p: the node path read off the wrapper and the one printed in the message are p (followed by
    the path r itself carried, if it is the error of a graph the node body ran). *)
 Theorem failing_node_reported : forall g F' par p r,
-  forward (g :: F') -> fails_at (g :: F') (stream_of par) (S (List.length (g :: F'))) g p r ->
+  forward (g :: F') -> post_ok (g :: F') -> fails_at (g :: F') (stream_of par) (S (List.length (g :: F'))) g p r ->
   In (AErr (top_error par (wrap_path p r))) (answers (g :: F') par false None) /\
   (is_interrupt_error r = false ->
      msg_path (top_error par (wrap_path p r)) = (p ++ np_of r)%list /\
@@ -91,11 +153,16 @@ Proof. exact ok_quiet. Qed.
    not an answer of the public call (the hypothesis any_fuel = false of the per-step theorems
    holds on every stage of such a run, [stage_no_fuel]) *)
 Theorem answers_no_fuel : forall g F' par cb ii,
-  forward (g :: F') -> ~ In AFuel (answers (g :: F') par cb ii).
+  forward (g :: F') -> post_ok (g :: F') -> ~ In AFuel (answers (g :: F') par cb ii).
 Proof. exact answers_no_fuel_lemma. Qed.
 
 Theorem forwardb_decides : forall F, forwardb F = true -> forward F.
 Proof. exact forwardb_sound. Qed.
+
+(* [post_ok]: no state post-handler sits on a lazily transforming lambda — the one combination the
+   model leaves out (there the run loop itself reads the node's input stream; answer NFuel) *)
+Theorem post_okb_decides : forall F, post_okb F = true -> post_ok F.
+Proof. exact post_okb_sound. Qed.
 
 Example failing_node_reported_nonvacuous :
   (* the path to the failing node passes, at the top level, a stage with a sub-graph that succeeds
@@ -106,19 +173,20 @@ Example failing_node_reported_nonvacuous :
              mkGraph false [[NSub "c" 3]] false 0 BrNone;
              mkGraph false [[NLam "n" FS (BFail (Wrapf (Leaf 0))); NLam "m" FI (BFail (Custom 1 7))]] false 0 BrNone;
              mkGraph false [[NLam "x" FC BOk]; [NLam "y" FT BOk]] false 0 BrNone ] in
-  forward F /\
+  forward F /\ post_ok F /\
   fails_at F true (S (List.length F)) top ["a"; "b"; "c"; "n"] (wrap_stream TransformByStream (Wrapf (Leaf 0))).
 Proof.
   cbv zeta. split; [apply forwardb_sound; vm_compute; reflexivity|].
+  split; [apply post_okb_sound; vm_compute; reflexivity|].
   eapply (fa_sub _ _ _ _ [[NLam "first" FI BOk; NSub "fine" 4%nat; NTools "tools" [TOk; TOk]]] [NSub "a" 1%nat] [] "a" 1%nat);
-    [reflexivity| |cbn; lia|left; reflexivity|reflexivity|].
-  { intros st n [<-|[]] [<-|[<-|[<-|[]]]]; vm_compute; reflexivity. }
+    [reflexivity| |cbn; lia|reflexivity|left; reflexivity|reflexivity|].
+  { intros st n [<-|[]] [<-|[<-|[<-|[]]]]; vm_compute; split; reflexivity. }
   eapply (fa_sub _ _ _ _ [] [NSub "b" 2%nat; NLam "side" FT BOk] [] "b" 2%nat);
-    [reflexivity|intros st n []|cbn; lia|left; reflexivity|reflexivity|].
+    [reflexivity|intros st n []|cbn; lia|reflexivity|left; reflexivity|reflexivity|].
   eapply (fa_sub _ _ _ _ [] [NSub "c" 3%nat] [] "c" 3%nat);
-    [reflexivity|intros st n []|cbn; lia|left; reflexivity|reflexivity|].
+    [reflexivity|intros st n []|cbn; lia|reflexivity|left; reflexivity|reflexivity|].
   eapply (fa_leaf _ _ _ _ [] _ [] (NLam "n" FS (BFail (Wrapf (Leaf 0)))));
-    [reflexivity|intros st n []|cbn; lia|left; reflexivity|reflexivity|reflexivity|left; reflexivity|reflexivity].
+    [reflexivity|intros st n []|cbn; lia|reflexivity|left; reflexivity|reflexivity|reflexivity|left; reflexivity|reflexivity].
 Qed.
 
 (* Before the repair of F-C13c the two wrapping functions extended the wrapper they were given in
@@ -258,6 +326,7 @@ Proof. exact cancelled_run. Qed.
    node (a branch is not a node). *)
 Theorem branch_failure_reported : forall F stream rec all loop k st u,
   (forall n, In n st -> exec_node F stream rec [] false n = NOk [] false) ->
+  pre_fails stream [] st = [] ->
   steps F stream rec all loop (BrFail u) (S k) [st] [] false = GFail [branch_error (branch_origin stream u)] /\
   exists ws, branch_error (branch_origin stream u) = apply_ws ws u /\ keys_of ws = [].
 Proof. exact branch_failure_lemma. Qed.
@@ -297,6 +366,7 @@ Print Assumptions interrupts_pass_unwrapped.
 Theorem interrupt_is_not_failure : forall F stream rec all loop br k st rest items,
   let rs := map (fun n => (node_key n, exec_node F stream rec items false n)) st in
   any_fuel rs = false -> all_fails rs = [] -> any_int rs = true -> all_items rs = [] ->
+  pre_fails stream items st = [] ->
   steps F stream rec all loop br (S k) (st :: rest) items false = GInt.
 Proof. exact step_interrupts. Qed.
 
@@ -327,6 +397,7 @@ Proof. exact tool_panic_is_error. Qed.
 Theorem panic_contained : forall F stream rec all loop br k st rest key f i,
   In (NLam key f (BPanic i)) st ->
   any_fuel (map (fun n => (node_key n, exec_node F stream rec [] false n)) st) = false ->
+  pre_fails stream [] st = [] ->
   exists es e, steps F stream rec all loop br (S k) (st :: rest) [] false = GFail es /\ In e es /\
                as_panic e = Some i /\ np_of e = [key].
 Proof. exact panicking_node_fails_run. Qed.
@@ -336,6 +407,7 @@ Theorem panic_contained_tools_run : forall F stream rec all loop br k st rest ke
   In (NTools key ts) st -> In (TPanic i) ts ->
   any_fuel (map (fun n => (node_key n, exec_node F stream rec [] false n)) st) = false ->
   (forall es e, exec_tools stream [] ts = NErr es -> In e es -> is_interrupt_task e = false) ->
+  pre_fails stream [] st = [] ->
   exists es, steps F stream rec all loop br (S k) (st :: rest) [] false = GFail es /\ es <> [].
 Proof. exact panicking_tool_fails_run. Qed.
 
